@@ -73,6 +73,90 @@ theorem C19_log2 (n : Nat) (h0 : 0 < n) (h : n < 2^32) : Gen.fastLog2Floor n = N
     simp (disch := omega) only [m4] <;> split <;> simp (disch := omega) only [m5] <;> split <;>
     simp only [Nat.reducePow, Nat.reduceAdd] <;> omega
 
+
+/-! End-to-end corollaries stated directly on the regenerated definitions. -/
+
+/-- work, as the code computes it, is non-increasing in the decoded target: for any two
+encodings with positive targets, the larger target never has the larger work. -/
+theorem C19_work_antitone_generated (b1 b2 : Nat) (h1 : b1 < 2^32) (h2 : b2 < 2^32)
+    (h0 : 0 < Gen.compactToBig b1) (h : Gen.compactToBig b1 ≤ Gen.compactToBig b2) :
+    Gen.calcWork b2 ≤ Gen.calcWork b1 := by
+  rw [C19_work b1 h1, C19_work b2 h2]
+  rw [C19_compact b1 h1] at h0 h
+  rw [C19_compact b2 h2] at h
+  exact C19_antitone _ _ h0 h
+
+/-- a non-positive decoded target (zero mantissa, sign bit, truncated away) has work zero in the code. -/
+theorem C19_work_zero_generated (b : Nat) (hb : b < 2^32) (h : Gen.compactToBig b ≤ 0) :
+    Gen.calcWork b = 0 := by
+  rw [C19_work b hb]; rw [C19_compact b hb] at h; exact C19_nonpos _ h
+
+/-- the spec's quotient IS the floor: w·(t+1) ≤ 2^256 < (w+1)·(t+1), and it is the only such w. -/
+theorem C19_work_is_floor (t : Int) (h0 : 0 < t) :
+    workSpec t * (t + 1) ≤ 2^256 ∧ 2^256 < (workSpec t + 1) * (t + 1) := by
+  unfold workSpec
+  rw [if_neg (by omega)]
+  have hp : (0:Int) < t + 1 := by omega
+  refine ⟨Int.ediv_mul_le _ (by omega), ?_⟩
+  have := Int.lt_ediv_add_one_mul_self ((2:Int)^256) hp
+  exact this
+
+theorem C19_work_floor_unique (t w : Int) (h0 : 0 < t)
+    (hl : w * (t + 1) ≤ 2^256) (hu : 2^256 < (w + 1) * (t + 1)) : w = workSpec t := by
+  unfold workSpec
+  rw [if_neg (by omega)]
+  have hp : (0:Int) < t + 1 := by omega
+  apply Int.le_antisymm
+  · exact Int.le_ediv_of_mul_le hp hl
+  · have : (2:Int)^256 / (t + 1) < w + 1 := Int.ediv_lt_of_lt_mul hp hu
+    omega
+
+/-- the code's work for a positive target satisfies the floor bracket (no spec in the statement). -/
+theorem C19_work_floor_generated (b : Nat) (hb : b < 2^32) (h0 : 0 < Gen.compactToBig b) :
+    Gen.calcWork b * (Gen.compactToBig b + 1) ≤ 2^256 ∧
+    2^256 < (Gen.calcWork b + 1) * (Gen.compactToBig b + 1) := by
+  rw [C19_work b hb, C19_compact b hb]
+  rw [C19_compact b hb] at h0
+  exact C19_work_is_floor _ h0
+
+/-- work is positive exactly when the target is positive and below 2^256. -/
+theorem C19_work_pos_iff (t : Int) (h0 : 0 < t) : 0 < workSpec t ↔ t + 1 ≤ 2^256 := by
+  have ⟨hl, hu⟩ := C19_work_is_floor t h0
+  have hnn : 0 ≤ workSpec t := by
+    unfold workSpec; rw [if_neg (by omega)]; exact Int.ediv_nonneg (by decide) (by omega)
+  constructor
+  · intro hw
+    have : 1 * (t + 1) ≤ workSpec t * (t + 1) := Int.mul_le_mul_of_nonneg_right (by omega) (by omega)
+    omega
+  · intro ht
+    by_cases h : 0 < workSpec t
+    · exact h
+    · have hz : workSpec t = 0 := by omega
+      rw [hz] at hu; omega
+
+/-- the logarithm brackets n between consecutive powers of two, on the generated definition. -/
+theorem C19_log2_bracket (n : Nat) (h0 : 0 < n) (h : n < 2^32) :
+    2 ^ Gen.fastLog2Floor n ≤ n ∧ n < 2 ^ (Gen.fastLog2Floor n + 1) := by
+  rw [C19_log2 n h0 h]
+  exact (Nat.log2_eq_iff (by omega)).mp rfl
+
+/-- … and never exceeds 31, so a locator built from it has a bounded number of entries. -/
+theorem C19_log2_le_31 (n : Nat) (h0 : 0 < n) (h : n < 2^32) : Gen.fastLog2Floor n ≤ 31 := by
+  have hb := (C19_log2_bracket n h0 h).1
+  rcases Nat.lt_or_ge (Gen.fastLog2Floor n) 32 with h' | h'
+  · omega
+  · have : 2^32 ≤ 2 ^ Gen.fastLog2Floor n := Nat.pow_le_pow_right (by decide) h'
+    omega
+
+/-- the logarithm is monotone. -/
+theorem C19_log2_mono (m n : Nat) (h0 : 0 < m) (hmn : m ≤ n) (h : n < 2^32) :
+    Gen.fastLog2Floor m ≤ Gen.fastLog2Floor n := by
+  have hm := (C19_log2_bracket m h0 (by omega)).1
+  have hn := (C19_log2_bracket n (by omega) h).2
+  have hlt : 2 ^ Gen.fastLog2Floor m < 2 ^ (Gen.fastLog2Floor n + 1) := by omega
+  have := (Nat.pow_lt_pow_iff_right (a := 2) (by decide)).mp hlt
+  omega
+
 -- non-vacuity / sanity: concrete evaluations of the regenerated definitions
 example : Gen.compactToBig 0x1d00ffff = 0xffff * 2^208 := by decide
 example : Gen.calcWork 0x1d00ffff = 4295032833 := by decide
@@ -81,5 +165,9 @@ example : Gen.calcWork 0x04923456 = 0 := by decide
 example : Gen.compactToBig 0x01003456 = 0 := by decide
 example : Gen.fastLog2Floor 4294967295 = 31 := by decide
 example : Gen.fastLog2Floor 1 = 0 := by decide
+-- premises of the end-to-end corollaries are satisfiable: 0x1c00ffff decodes below 0x1d00ffff, both positive
+example : 0 < Gen.compactToBig 0x1c00ffff ∧ Gen.compactToBig 0x1c00ffff ≤ Gen.compactToBig 0x1d00ffff := by decide
+example : Gen.calcWork 0x1d00ffff ≤ Gen.calcWork 0x1c00ffff := by decide
+example : Gen.compactToBig 0x1d80ffff ≤ 0 ∧ Gen.calcWork 0x1d80ffff = 0 := by decide
 
 end BHS.Props.C19
